@@ -280,6 +280,10 @@ func rndMixDoc(rng *rand.Rand, di int) jx.Obj {
 			}
 			paths[p] = pi
 		}
+		if di == 0 && gen.Chance(rng, 35) {
+			// an extension of the primary's paths object itself (also when it holds no path item at all)
+			paths["x-path-group"] = "doc" + s
+		}
 		d["paths"] = paths
 	}
 	return d
